@@ -39,6 +39,7 @@ type knownFinding struct {
 	Description string `json:"description"`
 	Witness     string `json:"witness,omitempty"`
 	Commit      string `json:"commit,omitempty"`
+	PanicIn     string `json:"panic_in,omitempty"` // for a class of panics: the function the panic is raised in
 }
 
 func loadKnown() (map[string]knownFinding, error) {
